@@ -33,6 +33,16 @@ func Bubble(t *testing.T, f func()) (leak string, trouble string) {
 	return
 }
 
+// BubbleIsolated is Bubble run inside a subtest: when the testing package
+// itself fails the bubble's test (it does so when the race detector reported
+// something during it) only the subtest is aborted and the caller goes on.
+func BubbleIsolated(t *testing.T, f func()) (leak string, trouble string) {
+	t.Run("bubble", func(st *testing.T) {
+		leak, trouble = Bubble(st, f)
+	})
+	return
+}
+
 // AcceptorRig is a real Acceptor over a scripted listener.
 type AcceptorRig struct {
 	L    *netsim.Listener
